@@ -15,7 +15,7 @@ import (
 
 const verifBaseDoc = `{"openapi":"3.0.0","info":{"title":"t","version":"1","license":{"name":"MIT"}},"servers":[{"url":"https://{h}/v1","variables":{"h":{"default":"a"}}}],` +
 	`"tags":[{"name":"x","externalDocs":{"url":"https://e"}}],"security":[{"sec":[]}],` +
-	`"paths":{"/a/{id}":{"parameters":[{"$ref":"#/components/parameters/Id"}],"get":{"operationId":"get","tags":["x"],"parameters":[{"name":"q","in":"query","schema":{"type":"array","items":{"type":"integer"}},"examples":{"e":{"$ref":"#/components/examples/E"}}}],` +
+	`"paths":{"/a/{id}":{"parameters":[{"$ref":"#/components/parameters/Id"}],"get":{"operationId":"get","tags":["x"],"parameters":[{"name":"q","in":"query","schema":{"type":"array","items":{"type":"integer"}},"examples":{"e":{"value":[1]}}}],` +
 	`"requestBody":{"$ref":"#/components/requestBodies/B"},"responses":{"200":{"$ref":"#/components/responses/R"},"default":{"description":"d","headers":{"X-H":{"$ref":"#/components/headers/H"}},"content":{"application/json":{"schema":{"$ref":"#/components/schemas/S"},"example":{"a":1}}},"links":{"l":{"$ref":"#/components/links/L"}}}},` +
 	`"callbacks":{"cb":{"$ref":"#/components/callbacks/C"}},"security":[{}]}}},` +
 	`"components":{"schemas":{"S":{"type":"object","required":["a"],"properties":{"a":{"type":"integer","format":"int32","minimum":0},"n":{"$ref":"#/components/schemas/S"},"l":{"type":"array","items":{"$ref":"#/components/schemas/T"}}},"additionalProperties":false,"discriminator":{"propertyName":"a"}},"T":{"oneOf":[{"type":"string","pattern":"^a"},{"type":"number","multipleOf":2}],"default":"a","nullable":true}},` +
